@@ -13,7 +13,8 @@ Scenario:
                                                   delivered dt ticks after the previous scripted event; rtt >= 0:
                                                   the ACK's time stamp is now - rtt ticks; rtt = -1: the time stamp of
                                                   the latest transmission of the last segment it covers (what TCPSink echoes)
-           {"op": "D", "dt", "late"}              one duplicate ACK (ack = last_ack); skipped when nothing is outstanding
+           {"op": "D", "dt", "late", "idle"}      one duplicate ACK (ack = last_ack); skipped when nothing is outstanding
+                                                  unless idle = 1
            {"op": "W", "dt"}]                     only let time pass (retransmission timers fire)
           late = 1: the ACK is delivered behind everything else queued for its instant (a zero-delay hop)
 The sender's `out` is a recording tap; only the public API / attributes are used.
@@ -201,8 +202,8 @@ def run_one(sc):
                 if not deliver(ackno, stamp):
                     break
             elif op["op"] == "D":
-                if snd.last_ack >= snd.next_seq:
-                    continue
+                if snd.last_ack >= snd.next_seq and not op.get("idle"):
+                    continue       # idle = 1: a repeat of the latest ACK is delivered even with nothing outstanding
                 if not deliver(snd.last_ack, last_tx.get(snd.last_ack, env.now)):
                     break
         yield env.timeout(0)
